@@ -18,6 +18,8 @@ CONSTANTS NReq,            \* requests per behaviour
           Tags, Fids, Kinds,
           FixFallthrough,  \* process() returns after answering a flushed request (fix 3)
           FixStale,        \* reply Fcall type cleared when taken from the pool (fix 7)
+          FixOrder,        \* Respond unlinks the request only after queueing its reply (fix 8)
+          FixChain,        \* flush chains are linked through a field of their own (fix 9a)
           FixClose,        \* Respond does not block on reqout after close; close drops table refs (fix 12)
           SharedTags,      \* client may reuse an outstanding tag for non-flush requests
           HasFlushOp,      \* implementation provides FlushOp
@@ -44,7 +46,7 @@ vars == <<nreq, rq, reqs, wpc, stack, act, fidref, spc, scur, outq, wire, impl,
 
 NullRq == [kind |-> "none", tag |-> 0, fid |-> 0, newfid |-> 0, oldtag |-> 0,
            flush |-> FALSE, work |-> FALSE, resp |-> FALSE, saved |-> FALSE,
-           next |-> 0, prev |-> 0, flushreq |-> 0,
+           next |-> 0, prev |-> 0, flushreq |-> 0, fnext |-> 0,
            hfid |-> 0, hnew |-> 0, tgt |-> 0, rc |-> 0]
 NullAct == [st |-> "none", oldflush |-> FALSE, nextreq |-> 0, cur |-> 0]
 
@@ -120,6 +122,9 @@ Recv(kind, tag, fid, newfid, oldtag) ==
 
 -----------------------------------------------------------------------------
 AtBase(g) == stack[g] = <<>>
+(* link from one waiting flush to the next: as coded the same field as the head of a request's own
+   waiters (so a flush that is itself being flushed loses one of the two) *)
+Link(rq1, f) == IF FixChain THEN rq1[f].fnext ELSE rq1[f].flushreq
 Top(g) == stack[g][Len(stack[g])]
 
 (* PackR*(req.Rc, ...): overwrites the content of whatever Fcall req.Rc designates *)
@@ -133,7 +138,8 @@ DropRef(fr, f) == IF f = NoFid THEN fr ELSE [fr EXCEPT ![f] = IF @ > 0 THEN @ - 
 EnterRq(rq1, t) == [rq1 EXCEPT ![t].resp = TRUE, ![t].work = FALSE]
 EnterStack(rq1, st1, g, t) == IF rq1[t].resp THEN st1 ELSE [st1 EXCEPT ![g] = Append(@, t)]
 EnterAct(rq1, act1, t) == IF rq1[t].resp THEN act1
-                          ELSE [act1 EXCEPT ![t] = [NullAct EXCEPT !.st = "unlink", !.oldflush = rq1[t].flush]]
+                          ELSE [act1 EXCEPT ![t] = [NullAct EXCEPT !.st = IF FixOrder THEN "post" ELSE "unlink",
+                                                                   !.oldflush = rq1[t].flush]]
 
 RespEnter(g, t, rq1) ==
   /\ rq' = EnterRq(rq1, t)
@@ -196,8 +202,10 @@ WDispatch(r) ==
             LET tgt == reqs[rq[r].oldtag] IN
             /\ fc' = Packed(fc, r, "RFlush")
             /\ rq' = IF tgt # 0
-                       THEN [rq EXCEPT ![r].flushreq = rq[tgt].flushreq, ![r].tgt = tgt,
-                                       ![tgt].flushreq = r]
+                       THEN IF FixChain
+                              THEN [rq EXCEPT ![r].fnext = rq[tgt].flushreq, ![r].tgt = tgt, ![tgt].flushreq = r]
+                              ELSE [rq EXCEPT ![r].flushreq = rq[tgt].flushreq, ![r].tgt = tgt,
+                                              ![tgt].flushreq = r]
                        ELSE rq
             /\ wpc' = [wpc EXCEPT ![r] = "flush2"]
             /\ UNCHANGED <<stack, act, fidref, impl, badcall, calls, creator, fdir>>
@@ -298,11 +306,11 @@ RUnlink(g, t) ==               \* the conn.Lock section of Respond, as coded
                 moved  == rq[t].flushreq # 0 IN
             /\ rq' = [rq EXCEPT ![nx].next = 0,
                                 ![nx].flushreq = IF moved /\ ~hasOwn THEN rq[t].flushreq ELSE @]
-            /\ act' = [act EXCEPT ![t].st = "post", ![t].cur = 0,
+            /\ act' = [act EXCEPT ![t].st = IF FixOrder THEN "next" ELSE "post", ![t].cur = 0,
                                   ![t].nextreq = IF moved /\ hasOwn THEN rq[t].flushreq ELSE nx]
             /\ UNCHANGED reqs
        ELSE /\ reqs' = [reqs EXCEPT ![rq[t].tag] = 0]
-            /\ act' = [act EXCEPT ![t].st = "post", ![t].cur = rq[t].flushreq, ![t].nextreq = 0]
+            /\ act' = [act EXCEPT ![t].st = IF FixOrder THEN "next" ELSE "post", ![t].cur = rq[t].flushreq, ![t].nextreq = 0]
             /\ UNCHANGED rq
   /\ UNCHANGED <<nreq, wpc, stack, fidref, spc, scur, outq, wire, impl, fc, pool, nfc, cstate, cpc, fdir>>
   /\ UNCHANGED ghosts
@@ -338,7 +346,7 @@ REnq(g, t) ==
             THEN /\ FixClose /\ UNCHANGED <<spc, scur, outq>>   \* unfixed: blocks forever (sender has exited)
      ELSE IF spc = "idle" THEN /\ spc' = "got" /\ scur' = t /\ UNCHANGED outq
      ELSE /\ Len(outq) < Maxpend /\ outq' = Append(outq, t) /\ UNCHANGED <<spc, scur>>
-  /\ act' = [act EXCEPT ![t].st = "next"]
+  /\ act' = [act EXCEPT ![t].st = IF FixOrder THEN "unlink" ELSE "next"]
   /\ UNCHANGED <<nreq, rq, reqs, wpc, stack, fidref, wire, impl, fc, pool, nfc, cstate, cpc, fdir>>
   /\ UNCHANGED ghosts
 
@@ -354,7 +362,7 @@ Unwind(g, rq1, st1, act1) ==
             IF f = 0
               THEN Unwind(g, rq1, [st1 EXCEPT ![g] = SubSeq(@, 1, Len(@) - 1)],
                           [act1 EXCEPT ![t].st = "done"])
-              ELSE LET act2 == [act1 EXCEPT ![t].cur = rq1[f].flushreq] IN
+              ELSE LET act2 == [act1 EXCEPT ![t].cur = Link(rq1, f)] IN
                    IF rq1[f].resp
                      THEN Unwind(g, EnterRq(rq1, f), st1, act2)
                      ELSE <<EnterRq(rq1, f), EnterStack(rq1, st1, g, f), EnterAct(rq1, act2, f)>>
@@ -516,8 +524,11 @@ FlushOrder == \A i, j \in 1..Len(wire) :
                  (rq[wire[i].req].kind = "Flush" /\ wire[i].kind = "RFlush"
                   /\ wire[j].tag = rq[wire[i].req].oldtag /\ wire[j].req < wire[i].req) => j < i
 NoCallAfterCancel == ~badcall
+(* every Tflush is answered exactly once -- except one that was itself cancelled by a later Tflush
+   (a flushed request, flushes included, gets at most one reply) *)
 FlushAnswered == (Quiescent /\ ImplIdle /\ cstate = "open") =>
-                    \A r \in 1..nreq : rq[r].kind = "Flush" => Cardinality(Replies(r)) = 1
+                    \A r \in 1..nreq : (rq[r].kind = "Flush" /\ r \notin cancelled /\ ~rq[r].flush)
+                                           => Cardinality(Replies(r)) = 1
 CancelLeavesNothing == (Quiescent /\ ImplIdle) =>
                           \A f \in Fids : (fidref[f] > 0 /\ creator[f] # 0) => creator[f] \notin cancelled
 
